@@ -200,7 +200,8 @@ CleanPath(p) ==
          [abs |-> p.abs, parts |-> IF ~p.abs /\ q = <<>> THEN <<".">> ELSE q]
 
 \* the call as an implementation that cleans its operands sees it (a symlink target is stored cleaned too)
-CleanCall(c) == [c EXCEPT !.p = CleanPath(@), !.q = CleanPath(@)]
+\* (a Glob pattern is not a path: its elements are matched, "." and ".." and a trailing separator included)
+CleanCall(c) == IF c.op = "glob" THEN c ELSE [c EXCEPT !.p = CleanPath(@), !.q = CleanPath(@)]
 
 Resolve(st, p, follow, bud) ==
     IF IsEmptyPath(p) THEN WErr("ENOENT")
